@@ -304,12 +304,28 @@ def entry_point(chk, ex):
                 m = chk.prove(f'{ctx["tag"]}/unusable-version-is-a-4xx-without-handler', pc,
                               z3.And(z3.Not(good), z3.BoolVal(not (out.discr == 1 and isinstance(st, int) and 400 <= st <= 499))), extra=ctx['assume'])
                 what = f'unusable version header answered {out}'
+                # served at every version of its range: when the header is usable and some endpoint's method, path and range match, a handler runs
+                cands = [G.matched_endpoint(ctx, e) for e in ctx['eps']]
+                any_match = z3.Or([zb(c_) for c_ in cands if c_ is not False] or [z3.BoolVal(False)])
+                m2 = chk.prove(f'{ctx["tag"]}/served-at-every-version-of-its-range', pc, any_match, extra=ctx['assume'])
+                if m2 is not None:
+                    vcase = G.native_case(m2, ctx)
+                    rq0 = vcase['requests'][0]
+                    rcase = {'op': 'router', 'endpoints': vcase['endpoints'], 'order': list(range(len(ctx['eps']))),
+                             'requests': [{'method': rq0['method'], 'path': rq0['path'], 'version': rq0['header']}]}
+                    nat = replay([rcase])[0]
+                    res = (nat.get('results') or [{}])[0]
+                    all_reg = len(nat.get('registered', [])) == len(ctx['eps']) and all(x['ok'] for x in nat['registered'])
+                    chk.counterexample(f'no handler ran although an endpoint is declared for the request\'s method, path and version: {rq0} on '
+                                       f'{[(e["method"], e["path"], e["versions"]) for e in vcase["endpoints"]]} -> real router {res}', rcase, all_reg and 'ok' not in res, role='entry-point:unserved')
             if m is not None:
                 case, nat, same = G.native_agrees(chk, ex, m, ctx, r)
                 chk.counterexample(f'{what}: {case["requests"][0]} on {[(e["method"], e["path"], e["versions"]) for e in case["endpoints"]]} max {case["max"]} -> real server {nat}',
                                    case, same, role='entry-point')
         # the second table has no version-restricted endpoint at all: the header policy still applies to every request
-        for ti, table in enumerate((eps, [Endpoint(0, 'GET', '/a', 'All'), Endpoint(1, 'PUT', '/a/b', 'All')])):
+        # third table: the same method on a path and on the wildcard below it, for ranges that may be disjoint (the wildcard also matches the bare path)
+        for ti, table in enumerate((eps, [Endpoint(0, 'GET', '/a', 'All'), Endpoint(1, 'PUT', '/a/b', 'All')],
+                                    [Endpoint(0, 'GET', '/a', 'Until'), Endpoint(1, 'GET', '/a/{r:.*}', 'From')])):
             for mode in ('CancelOnDisconnect', 'Detached'):
                 seen.discard('handler')
                 g.run(table, 'dynamic', mode, ok_resp, check, f'entry{ti}')
